@@ -350,3 +350,57 @@ func isNilPredOn(key, f string) bool {
 	}
 	return strings.HasSuffix(other, ")."+f)
 }
+
+// publishCtxPhiCanons: when the publish context is not captured by a closure it is a phi
+// of the ctx parameter and what Observability.OnPublishStart returned for it. Those phis
+// are the publish context too; returns their canonical names in the root frame.
+func publishCtxPhiCanons(fn *ssa.Function) []string {
+	if fn == nil || len(fn.Params) < 2 {
+		return nil
+	}
+	var ctxParam *ssa.Parameter
+	for _, prm := range fn.Params {
+		if isNamed(prm.Type(), "context", "Context") {
+			ctxParam = prm
+		}
+	}
+	if ctxParam == nil {
+		return nil
+	}
+	ok := map[ssa.Value]bool{ctxParam: true}
+	for changed := true; changed; {
+		changed = false
+		for _, b := range fn.Blocks {
+			for _, in := range b.Instrs {
+				switch x := in.(type) {
+				case *ssa.Call:
+					if !ok[x] && x.Common().IsInvoke() && x.Common().Method.Name() == "OnPublishStart" && len(x.Common().Args) > 0 && ok[stripConv(x.Common().Args[0])] {
+						ok[x] = true
+						changed = true
+					}
+				case *ssa.Phi:
+					if ok[x] || !isNamed(x.Type(), "context", "Context") {
+						continue
+					}
+					all := true
+					for _, ed := range x.Edges {
+						if ed != ssa.Value(x) && !ok[stripConv(ed)] {
+							all = false
+						}
+					}
+					if all {
+						ok[x] = true
+						changed = true
+					}
+				}
+			}
+		}
+	}
+	var out []string
+	for v := range ok {
+		if ph, isPhi := v.(*ssa.Phi); isPhi {
+			out = append(out, "v:"+FuncDisplay(fn)+":"+ph.Name())
+		}
+	}
+	return out
+}
